@@ -12,6 +12,7 @@ import (
 	auctionsV2types "github.com/comdex-official/comdex/x/auctionsV2/types"
 	liqV2types "github.com/comdex-official/comdex/x/liquidationsV2/types"
 	markettypes "github.com/comdex-official/comdex/x/market/types"
+	tokenminttypes "github.com/comdex-official/comdex/x/tokenmint/types"
 
 	"verif/sim"
 )
@@ -114,10 +115,19 @@ func newCDP(t *testing.T, o cdpOpts) *cdpU {
 		u.byDenom[a.denom] = ua
 		u.byID[ua.ID] = ua
 	}
-	for _, ap := range [][2]string{{"cswap", "cswap"}, {"harbor", "hbr"}, {"commodo", "cmdo"}, {"beacon", "bcn"}} {
-		must(t, ak.AddAppRecords(ctx, assettypes.AppData{Name: ap[0], ShortName: ap[1], MinGovDeposit: sdk.ZeroInt(), GovTimeInSeconds: 0}))
+	for i, ap := range [][2]string{{"cswap", "cswap"}, {"harbor", "hbr"}, {"commodo", "cmdo"}, {"beacon", "bcn"}} {
+		ad := assettypes.AppData{Name: ap[0], ShortName: ap[1], MinGovDeposit: sdk.ZeroInt(), GovTimeInSeconds: 0}
+		if i == 1 || i == 3 { // the CDP apps have a governance token minted through tokenmint (needed by surplus / debt auctions)
+			ad.GenesisToken = []assettypes.MintGenesisToken{{AssetId: u.byDenom["uharbor"].ID, GenesisSupply: sdk.NewInt(1_000_000_000_000), IsGovToken: true, Recipient: c.Accts[0].Addr.String()}}
+		}
+		must(t, ak.AddAppRecords(ctx, ad))
 	}
 	u.cdpApps = []uint64{appHarbor, appBeacon}
+	for _, app := range u.cdpApps {
+		if res := c.Deliver(c.Accts[0], &tokenminttypes.MsgMintNewTokensRequest{From: c.Accts[0].Addr.String(), AppId: app, AssetId: u.byDenom["uharbor"].ID}); !res.OK() {
+			t.Fatalf("tokenmint genesis mint failed: %s", res.Log)
+		}
+	}
 
 	// initial prices (6-decimals USD)
 	for denom, p := range map[string]uint64{"ucmdx": 2_000_000, "ucmst": 1_000_000, "uharbor": 500_000, "uatom": 10_000_000, "weth-wei": 2_000_000_000, "wbtc-sat": 30_000_000_000, "uusdc": 1_000_000, "adai": 1_000_000, "ucmtw": 1_000_000} {
